@@ -340,7 +340,7 @@ def line_length_options(ctx):
     from .. import libs
     wd = ctx.subdir("ll")
     descs = {"long": LONG_LIB, "small": libs.SMALL_CXX, "csmall": libs.SMALL_C}
-    combos = [(72, 72), (1000, 72), (40, 72), (72, 40), (72, 100), (1000, 40)]
+    combos = [(72, 72), (1000, 72), (40, 72), (72, 40), (72, 100), (1000, 40), (0, 72), (72, 0), (0, 0), (1, 72), (72, 1)]
     jobs, meta = [], []
     for dn, text in descs.items():
         for cl, fl in combos:
@@ -383,12 +383,24 @@ def line_length_options(ctx):
                     ctx.violation("linelen c-depends-on-F_line_length %s" % dn, "%s: C/C++/Python files change when only F_line_length changes (%d -> %d, C_line_length=%d):\n%s" % (
                         dn, f1, f2, c1, "\n".join(isolate.diff_trees(da, db, 1))), {"kind": "linelen", "desc": dn})
         # the options act: the long library wraps differently at 40 and at 100 columns
-    for opt, k1, k2 in (("F_line_length", ("long", 72, 40), ("long", 72, 100)), ("C_line_length", ("long", 40, 72), ("long", 1000, 72))):
+    for opt, k1, k2 in (("F_line_length", ("long", 72, 40), ("long", 72, 100)), ("C_line_length", ("long", 40, 72), ("long", 1000, 72)),
+                        ("C_line_length", ("long", 0, 72), ("long", 72, 72)), ("F_line_length", ("long", 72, 0), ("long", 72, 72)),
+                        ("C_line_length", ("csmall", 0, 72), ("csmall", 72, 72))):
         a, b = trees.get(k1), trees.get(k2)
         if a is not None and b is not None:
             sel = (lambda k: isf(k)) if opt == "F_line_length" else (lambda k: k.endswith((".cpp", ".h")))
             if {k: v for k, v in a.items() if sel(k)} == {k: v for k, v in b.items() if sel(k)}:
                 ctx.violation("linelen %s-ignored" % opt, "the long-name library is wrapped identically under two values of %s: the option is not honoured" % opt, {"kind": "linelen"})
+    # reference.rst: "A value of 0 will give the shortest possible lines": every optional break is taken, exactly as
+    # under a length no token fits in (1)
+    for dn in descs:
+        for opt, k0, k1 in (("C_line_length", (dn, 0, 72), (dn, 1, 72)), ("F_line_length", (dn, 72, 0), (dn, 72, 1))):
+            a, b = trees.get(k0), trees.get(k1)
+            if a is not None and b is not None:
+                n += 1
+                if a != b:
+                    ctx.violation("linelen %s-zero-not-shortest %s" % (opt, dn), "%s: %s=0 (documented: shortest possible lines) is wrapped differently from %s=1:\n%s" % (
+                        dn, opt, opt, "\n".join(isolate.diff_trees(a, b, 1))), {"kind": "linelen", "desc": dn})
     ctx.part("line_length_options", descriptions=list(descs), combinations=combos, pairs_compared=n)
     ctx.count(states=len(res), transitions=len(res) + n, validated=len(res) + n)
 
